@@ -90,6 +90,28 @@ ADDED = {
  "C20": "Plus variables named like builtin operators and one GenVariables option object reused over every history of 3 value phases of its map.",
 }
 
+# families added in rounds 7 and 8 (appended after ADDED)
+ADDED2 = {
+ "C01": "Rounds 7-8: every comparison spelling over every literal/variable operand form, range checks on one variable, case-variant registered operators (AND, Or, IF), zero-operand operators at the stack-class boundaries, arithmetic over constants that leave int64, the operator sweep under negations.",
+ "C02": "Rounds 7-8: the same shared-corpus additions (comparison matrix, range checks, extreme constants) under all 16 subsets.",
+ "C03": "Rounds 7-8: pure operators also declared stateless (no run-time call may be skipped), EvalBool with a fetcher that keeps nothing cached, nested evaluation with the context the operator was handed.",
+ "C04": "Rounds 7-8: dotted variable names of one another with extra supplied entries, programs <=5 nodes under Debug / both event options, the caller's context.Context (nil, live, cancelled, expired) never changes an answer.",
+ "C05": "Rounds 7-8: as C04 (dotted names, Debug, caller context), range checks judged by the Kleene reference.",
+ "C06": "Rounds 7-8: contexts NewCtxFromVars built before later registrations on the same config.",
+ "C07": "Rounds 7-8: raw-typed configured constants, 130-element in-literals shared by concurrent calls, re-entry with the handed context.",
+ "C09": "Rounds 7-8: one Ctx across programs of different stack classes (all ordered pairs / triples), few nodes written with up to 200 000 tokens, xor and - operand counts, ReportEvent and Debug set together.",
+ "C10": "Rounds 7-8: every builtin name x every constant operand tuple (arity 0..4) bare and in either branch of an if under all 16 subsets: Compile succeeds, the outcome appears only when reached.",
+ "C11": "Rounds 7-8: layouts with a bound but unregistered name next to registered ones, identifiers covering every UTF-8 continuation byte.",
+ "C12": "Rounds 7-8: LOOP stack continuity (the previous step's product is on top of the next snapshot), histories with Expr.EventChan replaced before each evaluation.",
+ "C13": "Rounds 7-8: long string lists with blanks at every column, CR / U+2028 in literals, a 64 KiB line, nesting chains of 300/1100 (1600) levels.",
+ "C14": "Rounds 7-8: header lines of up to 300 KB ahead of and between directive lines.",
+ "C15": "Rounds 7-8: a free-running race-detector pass compiling 9000 infix sources concurrently, named calls with 1..200 arguments around the 127 limit.",
+ "C16": "Rounds 7-8: costs written before the priced names are registered (undefined-variable mode, ExtendConf from a costs-only base), xor / n-ary = / + / registered variadic operators keep their operand order.",
+ "C18": "Rounds 7-8: nested boolean folds (every ordered pair of and/or/xor spellings), wide folds of 5..127 operands with one deviating operand at every position.",
+ "C19": "Rounds 7-8: cross-layout matrix (every calendar day under 7 renderings x 8 layouts x 6 names: the layout the call names decides).",
+ "C20": "Rounds 7-8: every result also evaluated through NewCtxFromVars, several GenVariables maps in one call, levels 8..129.",
+}
+
 def main():
     props = [json.loads(l) for l in open(os.path.join(ROOT, "properties.jsonl"))]
     checks = []
@@ -100,6 +122,8 @@ def main():
             tech, text, note, ref = CHECKS[pid]
             if pid in ADDED:
                 text = text.rstrip() + " " + ADDED[pid]
+            if pid in ADDED2:
+                text = text.rstrip() + " " + ADDED2[pid]
             checks.append({
                 "property_id": pid,
                 "quick_cmd": "./run.sh %s quick" % pid,
